@@ -589,7 +589,7 @@ pub fn main_for<F: Family>(fam: F) -> ! {
                         println!("KNOWN-FINDING: property={p} {what} (signature={sig} hits={n})");
                     }
                 }
-                println!("replay: property={prop} held on this case");
+                println!("replay: property={prop} held on this case (nontrivial={} flags={:?})", ctx.nontrivial, ctx.flags);
                 std::process::exit(0);
             }
             Ok(Err(v)) => {
